@@ -4,6 +4,7 @@ C07 helper lemmas, bisimulation part 2 (kanata level): with the kanata-level com
 closed form, and two states that differ only in the layout's history ages (`AgeEquiv`) step to two
 such states with the SAME output, the same crash, the same everything else.
 -/
+import KVerif.Lemmas.KanataDynQuiet
 import KVerif.Lemmas.C07Age
 namespace KVerif.C07
 open KVerif.L KVerif.K
@@ -142,6 +143,8 @@ theorem tickStates_rest_ok (k : KState) (hr : KRest k) (l' : Layout)
   rw [e3]; simp only []
   rw [e3s]; simp only []
   rw [e4]; simp only []
+  have hrc : (setL k l').dyn.rcd = none := hr.noRec
+  simp only [dynTickRecord, hrc]
   exact e5
 
 theorem tickStates_rest_err (k : KState) (e : L.Crash) (hl : tick k.layout = .error e) :
@@ -191,7 +194,7 @@ structure KLay (k : KState) : Prop where
 
 theorem KRest.setL {k : KState} (h : KRest k) (l : Layout) : KRest (setL k l) :=
   ⟨h.customs, h.noOvr, h.ovrClean, h.cur, h.unmod, h.unshift, h.caps, h.scroll, h.hscroll, h.moveV,
-    h.moveH, h.wfi, h.vk, h.mcd, h.seqOff⟩
+    h.moveH, h.wfi, h.vk, h.mcd, h.seqOff, h.noRec⟩
 
 theorem KLay.of_equiv {k k' : KState} (h : KLay k) (he : AgeEquiv k k') : KLay k' := by
   obtain ⟨l', e, rfl⟩ := he
@@ -221,20 +224,24 @@ theorem tickStates_klay {k k' : KState} (hk : KLay k) (h : tickStates k = .ok k'
 
 /-! ### `handle_input_event` with the kanata-level components at rest, in closed form -/
 
-theorem handleInput_press_eq (k : KState) (hm : k.macroOnPressCancelDuration = 0) (code : Nat) :
+theorem handleInput_press_eq (k : KState) (hm : k.macroOnPressCancelDuration = 0) (hn : k.dyn.rcd = none) (code : Nat) :
     handleInputEvent k (.press code) =
       match k.layout.event (.press (0, code)) with
       | .error e => .error (.layout e)
       | .ok l => .ok (setL { k with ticksSinceIdle := 0 } l) := by
   unfold handleInputEvent
+  simp only [dynRecord_none _ _ _ (show ({ k with ticksSinceIdle := 0 } : KState).dyn.rcd = none from hn)]
   simp only [hm, gt_iff_lt, Nat.lt_irrefl, if_false]
   rfl
 
-theorem handleInput_release_eq (k : KState) (code : Nat) :
+theorem handleInput_release_eq (k : KState) (hn : k.dyn.rcd = none) (code : Nat) :
     handleInputEvent k (.release code) =
       match k.layout.event (.release (0, code)) with
       | .error e => .error (.layout e)
-      | .ok l => .ok (setL { k with ticksSinceIdle := 0 } l) := rfl
+      | .ok l => .ok (setL { k with ticksSinceIdle := 0 } l) := by
+  unfold handleInputEvent
+  simp only [dynRecord_none _ _ _ (show ({ k with ticksSinceIdle := 0 } : KState).dyn.rcd = none from hn)]
+  rfl
 
 theorem handleInput_tap_eq (k : KState) (code : Nat) :
     handleInputEvent k (.tap code) =
@@ -323,14 +330,14 @@ theorem handleInput_equiv {k k' : KState} (hk : KLay k) (he : AgeEquiv k k') (i 
   obtain ⟨l2, e, rfl⟩ := he
   cases i with
   | press code =>
-    rw [handleInput_press_eq k hk.rest.mcd, handleInput_press_eq (setL k l2) hk.rest.mcd]
+    rw [handleInput_press_eq k hk.rest.mcd hk.rest.noRec, handleInput_press_eq (setL k l2) hk.rest.mcd hk.rest.noRec]
     rcases coreL_eq_iff (event_ageEq e hk.cfg hk.inert (.press (0, code))) with ⟨c, h1, h2⟩ | ⟨s1, s2, h1, h2, h3⟩
     · show KRel (match k.layout.event _ with | .error e => _ | .ok l => _) (match l2.event _ with | .error e => _ | .ok l => _)
       rw [h1, h2]; exact rfl
     · show KRel (match k.layout.event _ with | .error e => _ | .ok l => _) (match l2.event _ with | .error e => _ | .ok l => _)
       rw [h1, h2]; exact ⟨s2, h3, rfl⟩
   | release code =>
-    rw [handleInput_release_eq k, handleInput_release_eq (setL k l2)]
+    rw [handleInput_release_eq k hk.rest.noRec, handleInput_release_eq (setL k l2) hk.rest.noRec]
     rcases coreL_eq_iff (event_ageEq e hk.cfg hk.inert (.release (0, code))) with ⟨c, h1, h2⟩ | ⟨s1, s2, h1, h2, h3⟩
     · show KRel (match k.layout.event _ with | .error e => _ | .ok l => _) (match l2.event _ with | .error e => _ | .ok l => _)
       rw [h1, h2]; exact rfl
@@ -372,7 +379,7 @@ theorem handleInput_klay {k k' : KState} (hk : KLay k) (i : Input) (h : handleIn
 /-! ### the blocking decision -/
 
 theorem isIdle_setL (k : KState) (l2 : Layout) (e : AgeEq k.layout l2) : isIdle (setL k l2) = isIdle k := by
-  unfold isIdle
+  unfold isIdle isIdleBase
   simp only [setL, ← e.queue, ← e.waiting, ← e.extraWaiting, ← e.lpt, ← e.oneshot, ← e.activeSequences,
     ← e.tapDanceEager, ← e.actionQueue, ← e.states]
 
@@ -406,6 +413,6 @@ theorem canBlock_klay {k : KState} (hk : KLay k) (ms : Nat) : KLay (canBlockUpda
   rw [ht]
   exact ⟨⟨hk.rest.customs, hk.rest.noOvr, hk.rest.ovrClean, hk.rest.cur, hk.rest.unmod, hk.rest.unshift,
     hk.rest.caps, hk.rest.scroll, hk.rest.hscroll, hk.rest.moveV, hk.rest.moveH, hk.rest.wfi, hk.rest.vk,
-    hk.rest.mcd, hk.rest.seqOff⟩, hk.cfg, hk.inert⟩
+    hk.rest.mcd, hk.rest.seqOff, hk.rest.noRec⟩, hk.cfg, hk.inert⟩
 
 end KVerif.C07
